@@ -15,7 +15,6 @@ const (
 
 var (
 	rComment = regexp.MustCompile(`@tag (.*)`) // 匹配注入 tag
-	rInject  = regexp.MustCompile("`.+`$")
 	rTags    = regexp.MustCompile(`\w+:"[^"]+"`) // 匹配 tag
 )
 
@@ -23,6 +22,8 @@ var (
 type textArea struct {
 	Start      int    // 开始位置
 	End        int    // 截止位置
+	TagStart   int    // tag 字面量的开始位置
+	TagEnd     int    // tag 字面量的截止位置
 	CurrentTag string // 已有 tag
 	InjectTag  string // 注入的 tag
 }
@@ -93,6 +94,8 @@ func ParseFile(inputPath string) (areas []textArea, err error) {
 				area := textArea{
 					Start:      int(field.Pos()),
 					End:        int(field.End()),
+					TagStart:   int(field.Tag.Pos()),
+					TagEnd:     int(field.Tag.End()),
 					CurrentTag: currentTag[1 : len(currentTag)-1], // 去掉 ``
 					InjectTag:  tag,
 				}
